@@ -444,7 +444,7 @@ impl SharedArrayBuffer {
             })?;
 
             // 18. If new.[[ArrayBufferData]] is O.[[ArrayBufferData]], throw a TypeError exception.
-            if ptr::eq(buf.as_ptr(), new.as_ptr()) {
+            if Arc::ptr_eq(&buf.data, &new.data) {
                 return Err(JsNativeError::typ()
                     .with_message("cannot reuse the same SharedArrayBuffer for a slice operation")
                     .into());
